@@ -213,8 +213,10 @@ def gen_ta_history(rng, nsteps, queries=True):
                 g = rng.choice(sorted(live))
                 if size[g] <= 14:
                     steps.append(["query", "incl", h, g, rng.randrange(8)])
-            else:
+            elif rng.random() < 0.5:
                 steps.append(["query", "empty", h])
+            else:
+                steps.append(["query", "simdown", h])
     return {"op": "hist", "kind": "ta", "sym": "names", "steps": steps}
 
 
@@ -261,11 +263,14 @@ def gen_c12_history(rng, nsteps):
 FA_EDGES = [[0, "a", 0], [0, "a", 1], [1, "b", 1], [1, "a", 2], [2, "b", 0], [2, "a", 2], [0, "b", 2]]
 FA_DERIVE1 = ["reverse", "unreach", "useless", "witness"]
 FA_DERIVE2 = ["union", "isect"]
+# two disjoint state ranges so that UnionDisjointStates gets in-domain operands that are results of other operations
+FA_BASE = {"lo": 0, "hi": 10}
 
 
 def gen_fa_history(rng, nsteps):
     live = set()
     size = {}
+    cls = {}           # handle -> "lo" / "hi" (all its states are in that range) or None (unknown: result of union / isect)
     steps = []
     for _ in range(nsteps):
         dead = [h for h in range(NH) if h not in live]
@@ -275,49 +280,65 @@ def gen_fa_history(rng, nsteps):
             steps.append(["new", h])
             live.add(h)
             size[h] = 0
+            cls[h] = rng.choice(["lo", "hi"])
             continue
         h = rng.choice(sorted(live))
+        base = FA_BASE.get(cls.get(h), 0)
         if r < 0.36:
-            steps.append(["add", h, rng.choice(FA_EDGES)])
+            e = rng.choice(FA_EDGES)
+            steps.append(["add", h, [e[0] + base, e[1], e[2] + base]])
             size[h] += 1
+            if cls.get(h) is None:
+                pass
         elif r < 0.46:
-            steps.append(["final", h, rng.randrange(3)])
+            steps.append(["final", h, rng.randrange(3) + base])
         elif r < 0.56:
-            steps.append(["start", h, rng.randrange(3)])
+            steps.append(["start", h, rng.randrange(3) + base])
         elif r < 0.66 and dead:
             d = rng.choice(dead)
             steps.append(["copyctor", d, h])
             live.add(d)
             size[d] = size[h]
+            cls[d] = cls.get(h)
         elif r < 0.72:
             g = rng.choice(sorted(live))
             steps.append(["assign", h, g])
             size[h] = size[g]
+            cls[h] = cls.get(g)
         elif r < 0.76 and dead:
             d = rng.choice(dead)
             steps.append(["movector", d, h])
             live.add(d)
             live.discard(h)
             size[d] = size[h]
+            cls[d] = cls.get(h)
         elif r < 0.79 and len(live) > 1:
             g = rng.choice(sorted(live - {h}))
             steps.append(["moveassign", h, g])
             live.discard(g)
             size[h] = size[g]
+            cls[h] = cls.get(g)
         elif r < 0.84:
             steps.append(["destroy", h])
             live.discard(h)
         elif r < 0.93 and dead and size[h] <= 9:
             d = rng.choice(dead)
-            if rng.random() < 0.55:
+            if rng.random() < 0.5:
                 steps.append(["derive", d, rng.choice(FA_DERIVE1), h])
                 size[d] = size[h]
+                cls[d] = cls.get(h)
             else:
                 g = rng.choice(sorted(live))
                 if size[g] > 9:
                     continue
-                steps.append(["derive", d, rng.choice(FA_DERIVE2), h, g])
+                disj = [x for x in sorted(live) if cls.get(x) and cls.get(h) and cls[x] != cls[h] and size[x] <= 9]
+                if disj and rng.random() < 0.5:
+                    g = rng.choice(disj)
+                    steps.append(["derive", d, "uniondisj", h, g])
+                else:
+                    steps.append(["derive", d, rng.choice(FA_DERIVE2), h, g])
                 size[d] = size[h] + size[g] + 2
+                cls[d] = None
             live.add(d)
         elif size[h] <= 12:
             g = rng.choice(sorted(live))
